@@ -68,48 +68,74 @@ def count_for(rnd, arity, kind):
             "last": rnd.choice([1, 2, 3])}[arity]
 
 
-def level_sentence(rnd, lvl):
-    """a sentence of one level (list of groups; each group is a list of items kept together)"""
-    groups = []
+def level_segments(rnd, lvl):
+    """a sentence of one level and its sub-levels as segments: each segment is a list of groups
+    (kind, id, items); groups of a 'free' segment may be interleaved freely (C03), the other
+    segments ('fixed': `--` and what follows it, a command name) keep their place"""
+    named = []
     for it in lvl["named"]:
         for _ in range(count_for(rnd, it["arity"], it["kind"])):
-            groups.append(occurrence(rnd, it))
-    rnd.shuffle(groups)
+            named.append(("named", it["id"], occurrence(rnd, it)))
+    rnd.shuffle(named)
     tail = lvl["tail"]
-    out = []
     if tail["kind"] == "pos":
         words = []
-        capacity_open = True
         for p in tail["items"]:
             k = {"one": 1, "opt": rnd.choice([0, 1]), "many": rnd.choice([0, 1, 2]),
                  "some": rnd.choice([1, 2])}[p["arity"]]
             for _ in range(k):
                 words.append((p, value_for(rnd, p["vt"])))
-        # positionals keep their order; interleave with named groups; strict ones go after `--`
         stricts = [w for w in words if w[0]["strict"] == "strict"]
-        plain = [w for w in words if w[0]["strict"] != "strict"]
-        slots = sorted(rnd.sample(range(len(groups) + len(plain)), len(plain))) if plain else []
-        gi = iter(groups)
-        pi = iter(plain)
-        for k in range(len(groups) + len(plain)):
-            if k in slots:
-                out.append([it_word(next(pi)[1])])
-            else:
-                out.append(next(gi))
+        plain = [("pos", "", [it_word(w[1])]) for w in words if w[0]["strict"] != "strict"]
+        free = interleave(rnd, named, plain)
+        segs = [("free", free)]
         if stricts or rnd.random() < 0.15:
-            out.append([it_extra("dd")])
-            for p, w in stricts:
-                out.append([it_word(w)])
-        return [i for g in out for i in g]
-    out = groups
-    items = [i for g in out for i in g]
+            segs.append(("fixed", [("dd", "", [it_extra("dd")])] + [("data", "", [it_word(w)]) for _, w in stricts]))
+        return segs
+    segs = [("free", named)]
     if tail["kind"] == "cmd":
         if tail["optional"] and rnd.random() < 0.3:
-            return items
+            return segs
         c = rnd.choice(tail["cmds"])
-        items.append(it_word(rnd.choice(c["names"] + c["shorts"])))
-        items += level_sentence(rnd, c["level"])
-    return items
+        segs.append(("fixed", [("cmd", "", [it_word(rnd.choice(c["names"] + c["shorts"]))])]))
+        segs += level_segments(rnd, c["level"])
+    return segs
+
+
+def interleave(rnd, a, b):
+    """random merge keeping the order inside a and inside b"""
+    out, a, b = [], list(a), list(b)
+    while a or b:
+        if a and (not b or rnd.random() < len(a) / (len(a) + len(b))):
+            out.append(a.pop(0))
+        else:
+            out.append(b.pop(0))
+    return out
+
+
+def flatten(segs):
+    return [i for _, groups in segs for _, _, items in groups for i in items]
+
+
+def level_sentence(rnd, lvl):
+    return flatten(level_segments(rnd, lvl))
+
+
+def permute_segments(rnd, segs):
+    """another order of the same sentence allowed by C03: inside every free segment the groups are
+    re-interleaved keeping the relative order of groups feeding the same field and of positionals"""
+    out = []
+    for kind, groups in segs:
+        if kind != "free":
+            out.append((kind, groups))
+            continue
+        by = {}
+        for g in groups:
+            by.setdefault((g[0], g[1]), []).append(g)
+        order = [(g[0], g[1]) for g in groups]
+        rnd.shuffle(order)
+        out.append((kind, [by[k].pop(0) for k in order]))
+    return out
 
 
 def all_items(d):
